@@ -243,6 +243,7 @@ static void vh_case_end(void) {
         vh.nops > 0 && vh.oplen + 300 > VH_OPLOG ? " ...(truncated)" : "");
     }
   }
+  if (vh.res) { fflush(vh.res); }
   vh_progress("end");
 }
 
